@@ -598,6 +598,9 @@ def run(tier, seed, replay=None):
         "the bit-level functions are the translated ones (coq/Gen/BitFns.v, regenerated from the source each run)",
         "post-order stack traversal of encode_bipartitions is modelled by structural recursion (traversal order is C15's subject)",
         "every leaf taxon is a member of the tree's namespace (taxon_bitmask of a non-member raises KeyError)",
+        "from_split_bitmasks: the leaf-to-root climb is modelled as the root-to-leaf descent to the deepest node covering the split (same node on masks that grow towards the root)",
+        "Bipartition.is_compatible_with(int): modelled in the recorded (int used as given) and the repaired (int normalised when self is not rooted) form; which one the working tree has is decided by replaying the finding's case",
+        "a tree without any taxon (tree mask 0) keeps mutable bipartitions and split_bitmask_edge_map raises AssertionError: outside the property's domain, not flagged",
         "edge lengths are dyadic rationals for which binary64 addition is exact",
     ]
     if replay:
@@ -633,6 +636,8 @@ def run(tier, seed, replay=None):
             ctx.count("enc:twice" if c["twice"] else "enc:once")
         if c["kind"] == "from":
             ctx.count("from:" + c["mode"])
+    ctx.notes.append("Bipartition.is_compatible_with(int) form of the working tree: %s"
+                     % ("repaired (int normalised)" if int_arg_normalised() else "recorded finding (int used as given)"))
     core.corr_stage(ctx, cases, observe, to_coq, HEADER, "case_ok", oracle=oracle, show_fn="case_show",
                     nontrivial=nontrivial, search=search, shard=250, sample_fn=sample_fn)
     return ctx.finish(
